@@ -146,9 +146,16 @@ func runC04(c *Ctx) {
 		// the session may have been established from somewhere else: the address that counts
 		// is the one of the download request
 		loginFrom, loginXFF := b.From, b.XFF
-		if c.T.Bool(1, 2) {
+		switch c.T.Weighted(2, 2, 1) {
+		case 1:
 			b.From, b.XFF = peerOf(c04Addrs[(ia+3)%len(c04Addrs)], 52001), ""
 			issued += " after login from " + b.From
+		case 2:
+			// the same proxy (same upstream peer address) forwarded the login for another client
+			if b.XFF != "" {
+				b.XFF = c04Addrs[(ia+3)%len(c04Addrs)] + ", 10.200.0.9"
+				issued += " after login through the same proxy for " + b.XFF
+			}
 		}
 		if ok, cb := b.Login("/connect", &env.IdPUser{Sub: p.User, Claims: map[string]any{"preferred_username": p.User}}); !ok {
 			c.Infra("login failed: callback status %d body %.100q", cb.Status, cb.Body)
